@@ -145,7 +145,7 @@ def parts(ctx):
     A(dict(name="bool-d3", profile=lambda e: P.bool_profile(e, 2, consts=()), depth=3, shards=32,
            mid_ops=_names("not", "and", "implies"), top_ops=_names(*_B2)))
     if not q:
-        A(dict(name="bool-d2-full", profile=lambda e: P.bool_profile(e, 2), depth=2, shards=256))
+        A(dict(name="bool-d2-full", profile=lambda e: P.bool_profile(e, 2, consts=(True,)), depth=2, shards=256))
         A(dict(name="bool-d3-wide", profile=lambda e: P.bool_profile(e, 2, consts=(True,)), depth=3, shards=128,
                mid_ops=_names("not", "and", "or"), top_ops=_names(*_B2)))
     # ---- arithmetic
@@ -162,10 +162,10 @@ def parts(ctx):
            depth=2, shards=16, mid_ops=_names("plus", "minus", "times"),
            top_ops=_names("plus3", "times3"), max_new=1 if q else 2))
     if not q:
-        A(dict(name="lia-d3", profile=lambda e: P.lia_profile(e, consts=(0, 1, -1), big=False, nsyms=2, pow_=False),
+        A(dict(name="lia-d3", profile=lambda e: P.lia_profile(e, consts=(0, 2), big=False, nsyms=2, pow_=False),
                depth=3, shards=256, mid_ops=_names("plus", "minus", "times"),
                top_ops=_names("plus", "minus", "times", "le", "eq", "div"), max_new=1))
-        A(dict(name="lra-d3", profile=lambda e: P.lra_profile(e, consts=(Fraction(0), Fraction(1), Fraction(1, 2)), pow_=False),
+        A(dict(name="lra-d3", profile=lambda e: P.lra_profile(e, consts=(Fraction(0), Fraction(1, 2)), pow_=False),
                depth=3, shards=256, mid_ops=_names("plus", "minus", "times"),
                top_ops=_names("plus", "minus", "times", "le", "eq", "div"), max_new=1))
     # ---- bit-vectors: all constants of the width, all operators
@@ -182,8 +182,9 @@ def parts(ctx):
     # ---- strings
     A(dict(name="str-d1", profile=lambda e: P.str_profile(e, strs=("", "a", "ab", "abc", "12", "-5", " 1", "1_0", "+3")),
            depth=1, shards=8))
-    A(dict(name="str-d2", profile=lambda e: P.str_profile(e, strs=("", "ab"), ints=(-1, 0, 1)), depth=2,
-           shards=32, max_new=1 if q else None))
+    A(dict(name="str-d2", profile=lambda e: P.str_profile(e, strs=("", "ab") if q else ("", "ab", "12"),
+                                                          ints=(-1, 0, 1) if q else (-1, 0, 1, 2)), depth=2,
+           shards=32 if q else 128, max_new=1))
     # ---- arrays
     for nm, i, e_ in (("int-int", INT, INT), ("bv1-bool", ("BV", 1), BOOL), ("bv2-bv2", ("BV", 2), ("BV", 2)),
                       ("int-bool", INT, BOOL)):
